@@ -63,7 +63,7 @@ fn interfering_poll(_site: u32) {
 #[kani::proof]
 #[kani::unwind(4)]
 fn c12_done_races_poll() {
-    unsafe { vs::MONITOR = true; }
+    unsafe { vs::MONITOR = true; vs::EDGES_ON = crate::cache::vk_cfg::LOCK_EDGES; }
     let ack = CommandAcknowledgement::new();
     vk_classify(&ack);
     let status = any_final_status();
